@@ -397,7 +397,9 @@ def c04(ctx):
 
 
 def c05(ctx):
-    return [Native("roundtrip", "c05")]
+    return [Native("roundtrip", "c05"),
+            WithShim("rsa-kem-leading-zeros", "c05", args=["--part", "kemzeros"], shards=7, quick_shards=7,
+                     note="k1.seal with the library's 512-byte draw forced (LD_PRELOAD feed) to stored r values whose RSA-KEM ciphertext starts with 1, 2 or 3 zero bytes")]
 
 
 def c06(ctx):
@@ -406,6 +408,8 @@ def c06(ctx):
 
 def c07(ctx):
     return [SelfTest(), Native("differential", "c07"),
+            WithShim("rsa-kem-leading-zeros", "c07", args=["--part", "kemzeros"], shards=7, quick_shards=7,
+                     note="k1.seal with forced r (1-3 leading zero bytes in the RSA-KEM ciphertext): fixed length, unsealed by library and reference"),
             Hooked("derived-counter-hook", "h1", args=["--part", "C07"], shards=8, quick_shards=8,
                    note="hook H1: k1/k3 PIE wraps and key seals with a forced derived counter block that wraps 64 bits")]
 
@@ -449,6 +453,8 @@ def c16(ctx):
     return [
         Native("fresh", "c16", args=["--part", "fresh"], note="Part A: random fields of N consecutive operations per kind logged to run/C16/<tier>/c16-events-*.bin"),
         Single("offline-uniqueness-check", "c16check", lambda c: [c.rundir], note="offline checker over the event logs of all shards: sorted merge, no random field may repeat"),
+        WithShim("fail-first", "c16", args=["--part", "failfirst"], shards=36, quick_shards=36, env={"PVMON_STALL_SECS": "150"},
+                 note="one process per (getrandom backend, operation kind): the first OS draw the process ever makes fails; Err, then 40 operations that must each draw from the OS and produce distinct output"),
         WithShim("faults", "c16", args=["--part", "faults"], shards=4, quick_shards=4, env={"PVMON_STALL_SECS": "150"}, note="Part B/C: fail-from-k and short-read-at-k at every OS draw index, fed bytes must reappear (getrandom backends v1-v4)"),
     ]
 
